@@ -22,7 +22,6 @@ RULE = ("seeded federated configurations (gvh/fedlab: supergraph of 3-10 object 
 KNOWN = [
     ("planner-key-field-type-conflict", "planning_never_fails",
      r"printOperation planner id: \d+: validation failed: external: fields '\w+' conflict because they return conflicting types"),
-    ("response-field-order", "field_order", r"member order/keys"),
     ("external-field-requested-outside-provides", "request_owned",
      r"is @external in subgraph \w+ and not provided on this path"),
 ]
@@ -39,7 +38,7 @@ def classify(case, detail):
 def distribution(cases):
     d = {"subgraphs": {}, "fetches_per_plan": {}, "entity_fetches": {}, "abstract_selections": 0, "requires_used": 0,
          "provides_used": 0, "ops_with_variables": 0, "ops_with_fragments": 0, "ops_with_directives": 0,
-         "ops_with_aliases": 0, "gateway_reported_errors": 0, "knob_tiers": {}}
+         "ops_with_aliases": 0, "gateway_reported_errors": 0, "member_order_differs": 0, "knob_tiers": {}}
     for c in cases:
         for name, rx in (("subgraphs", r"\(subgraphs (\d+)\)"), ("fetches_per_plan", r"\(fetches (\d+)\)"),
                          ("entity_fetches", r"\(entityfetches (\d+)\)")):
@@ -53,6 +52,9 @@ def distribution(cases):
                 d[name] += 1
         if "(gwerrors t)" in c:
             d["gateway_reported_errors"] += 1
+        if "(orderonly t)" in c:
+            # informational: same JSON value, member order differs from the CollectFields order
+            d["member_order_differs"] += 1
         m = re.search(r'\(id \d+ \d+ \d+ "([^"]*)"\)', c)
         if m:
             n = len(m.group(1).split(","))
@@ -121,7 +123,7 @@ def run(chk):
     for f in glob.glob(os.path.join(rdir, "*.json")):
         os.remove(f)
     # recorded findings are not shrunk again on every run (their minimised cases live in corpus/C01)
-    skip = "conflict because they return conflicting types|member order/keys|not provided on this path"
+    skip = "conflict because they return conflicting types|not provided on this path"
     state, samples, allcases = {}, [], []
     corpus = os.path.join(vlib.ROOT, "corpus", "C01")
     if glob.glob(os.path.join(corpus, "*.json")):
